@@ -21,6 +21,7 @@ def groups(tier):
     for k in range(1, K + 1):
         gs.append({'name': 'hybrid-N%d-K%d' % (N, k), 'fn': sat_group, 'args': {'N': N, 'k': k, 'hybrid': True}})
     if tier != 'quick':
+        gs.append({'name': 'hybrid-N5-K1', 'fn': sat_group, 'args': {'N': 5, 'k': 1, 'hybrid': True}})
         gs.append({'name': 'concrete-N2-K1', 'fn': sat_group, 'args': {'N': 2, 'k': 1, 'hybrid': False, 'L': 2}})
     gs.append(validation_group(('max_satisfying',), tier))
     gs.append(premise_group(tier))
